@@ -54,6 +54,7 @@ type JobResult struct {
 	Obls       []OblResult
 	Queries    int
 	FeasQ      int
+	GlobalInit map[string]bool
 	SolverTime time.Duration
 	Fallbacks  map[string]int // queries of this job decided by a fallback solver
 	Instrs     int
@@ -175,7 +176,7 @@ func (r *Runner) runJob(job Job, st *Store, sol *Solver) (jr JobResult) {
 	}
 	e := &Exec{st: st, sol: sol, prog: r.L.prog, L: r.L, overrides: job.Overrides, harnessPkg: pkg,
 		funcsSeen: jr.Funcs, maxForks: 64, unwind: 70000, qcache: map[[2]int]Verdict{},
-		globalW: map[string]bool{}, globalR: map[string]bool{}, loopFuncs: map[string]bool{}}
+		globalW: map[string]bool{}, globalInit: map[string]bool{}, globalR: map[string]bool{}, loopFuncs: map[string]bool{}}
 	e.aliasResolve = job.Alias
 	e.deadline = r.deadline
 	if job.BudgetS > 0 {
@@ -271,6 +272,7 @@ func (r *Runner) runJob(job Job, st *Store, sol *Solver) (jr JobResult) {
 		}
 	}
 	jr.GlobalW = e.globalW
+	jr.GlobalInit = e.globalInit
 	jr.GlobalR = e.globalR
 	jr.LoopFuncs = e.loopFuncs
 	jr.RaceChecks = e.raceChecks
